@@ -282,6 +282,37 @@ def render_clauses(pieces, idbase, indent="        "):
     return chunks, ids
 
 
+def pubify_struct(text):
+    """make every field of a struct `pub` (Verus treats a struct with a private field as opaque in `open spec fn`s)."""
+    toks = rustlex.code_toks(rustlex.lex(text))
+    ins = []
+    depth = 0
+    opener = None
+    for i, t in enumerate(toks):
+        if t.kind == "punct" and t.text in "([{<":
+            if t.text == "<":
+                if depth >= 1:
+                    depth += 1
+                continue
+            depth += 1
+            if depth == 1:
+                opener = t.text
+                if i + 1 < len(toks) and toks[i + 1].text not in (")", "}"):
+                    ins.append(toks[i + 1].start)
+        elif t.kind == "punct" and t.text in ")]}>":
+            if t.text == ">":
+                if depth > 1 and toks[i - 1].text != "-":
+                    depth -= 1
+                continue
+            depth -= 1
+        elif t.kind == "punct" and t.text == "," and depth == 1:
+            if i + 1 < len(toks) and toks[i + 1].text not in (")", "}"):
+                ins.append(toks[i + 1].start)
+    for off in sorted(ins, reverse=True):
+        text = text[:off] + "pub " + text[off:]
+    return text
+
+
 class Extracted:
     """One extracted function / region / item with its insertions."""
 
@@ -573,7 +604,9 @@ def expand_block(b, overlay, unit_breaks):
         # inner attributes / docs on fields and variants
         text2 = re.sub(r"^[ \t]*///.*\n", "", text, flags=re.M)
         text2 = re.sub(r"^[ \t]*#\[(?:serde|default|doc|allow|cfg_attr|deprecated)[^\n]*\]\s*\n", "", text2, flags=re.M)
-        text2 = re.sub(r"\bpub(\([a-z:\s]+\))? ", "pub ", text2)
+        text2 = re.sub(r"\bpub(\([a-z:\s]+\))? ", "", text2)
+        if kind == "struct":
+            text2 = pubify_struct(text2)
         ex.dropped = [x for x in dropped if not x.startswith("//")]
         derive = None
         for d in b.subs:
@@ -788,20 +821,33 @@ def generate(template_path, overlay=None):
     meta, parts = parse_template(template_path)
     g = Generated()
     g.meta = meta
-    for p in parts:
-        if p[0] == "text":
-            g.chunks.append(Chunk(p[1], {"t": "template", "line": p[2]}))
-        elif p[0] == "include":
-            f = os.path.join(VERIF, "prelude", p[1])
-            try:
-                g.chunks.append(Chunk(open(f).read() + "\n", {"t": "prelude", "file": p[1]}))
-            except OSError as e:
-                raise GenError("include %s: %s" % (p[1], e))
-            meta.setdefault("includes", []).append(p[1])
-        else:
-            ex, chunks = expand_block(p[1], overlay, g.breaks)
-            g.extracted.append(ex)
-            g.chunks += chunks
+
+    def emit(parts, incl, depth):
+        for p in parts:
+            if p[0] == "text":
+                g.chunks.append(Chunk(p[1], {"t": "prelude" if incl else "template", "file": incl, "line": p[2]}))
+            elif p[0] == "include":
+                if depth > 4:
+                    raise GenError("include nesting too deep at %s" % p[1])
+                f = os.path.join(VERIF, "prelude", p[1])
+                try:
+                    imeta, iparts = parse_template(f)
+                except OSError as e:
+                    raise GenError("include %s: %s" % (p[1], e))
+                if p[1] in meta.setdefault("includes", []):
+                    continue   # include once
+                meta["includes"].append(p[1])
+                for k in ("assumptions", "residue", "trusted", "notes"):
+                    for x in imeta.get(k, []):
+                        if x not in meta.setdefault(k, []):
+                            meta[k].append(x)
+                emit(iparts, p[1], depth + 1)
+            else:
+                ex, chunks = expand_block(p[1], overlay, g.breaks)
+                g.extracted.append(ex)
+                g.chunks += chunks
+
+    emit(parts, None, 0)
     off = 0
     for c in g.chunks:
         g.offsets.append(off)
